@@ -97,6 +97,10 @@ def judge(ss, out, slices):
               value (some row differs from its slice) | shape (no per-sample rows in the answer)"""
     ss = tuple(ss)
     n = len(ss)
+    # a slice that is singular on its own (None) says nothing about its row: only the other rows are compared
+    slices = {s: v for s, v in slices.items() if v is not None}
+    if not slices:
+        return "all-singular", None
     any_slice = next(iter(slices.values()))
     per_sample = tuple(out.shape[:n]) == ss and out.numel() == math.prod(ss) * any_slice.numel()
     if per_sample:
@@ -150,12 +154,17 @@ class Oracle:
             return [(case.name, f"raise {type(e).__name__}")]
         return None
 
-    def run(self, B, ss):
+    def run(self, B, ss, singular_ok=False):
+        """singular_ok: a slice that raises or is not finite when evaluated alone (a special value such as a zero
+        growth rate) is left out; the OTHER rows must still equal their slices"""
         B = frozenset(B)
         st, out = call(self.f, self.vals.batched(B, ss))
         sl = {}
         for s in sample_indices(ss):
             st_s, o = self.slice_out(B, pool_index(ss, s))
+            if singular_ok and (st_s != "ok" or not bool(torch.isfinite(o).all())):
+                sl[s] = None
+                continue
             if st_s != "ok":
                 return "slice-raises", o
             sl[s] = o
@@ -261,6 +270,58 @@ def fromlist(d):
     return torch.tensor(d["data"], dtype=getattr(torch, d["dtype"])).reshape(d["shape"])
 
 
+SPECIAL_INDEX = 1  # pool index holding the special value: sample 1 of [S], sample (0, 1) of [S, K]
+
+
+def explore_specials(ck: Check, case, found, budget=None):
+    """ONE sample of the batch holds a boundary / special value of one parameter (exact 0 or 1, a tie between event
+    times, equal neighbouring values, a value on a threshold of the code), the other samples are ordinary: a
+    whole-batch data-dependent branch (`torch.any(x == 0)`, `nonzero()`, `isinf` rescue paths) must not change the
+    other rows. Row vs slice as usual; the special sample itself is skipped when it is singular on its own."""
+    name = case.name
+    allnames = sorted(case.params)
+    for k in allnames:
+        for label, fn in case.params[k].specials:
+            orc = Oracle(case, ck.rng.getrandbits(40))
+            g = torch.Generator().manual_seed(ck.rng.getrandbits(40))
+            try:
+                orc.vals.pool[k][SPECIAL_INDEX] = fn(g).reshape(case.params[k].shape)
+            except Exception as e:
+                ck.notes.append(f"special {label} of {name}.{k} could not be generated: {type(e).__name__}")
+                continue
+            others = [a for a in allnames if a != k]
+            subs = [frozenset([k]), frozenset(allnames)]
+            if others:
+                subs.append(frozenset([k, ck.rng.choice(others)]))
+            if ck.thorough() and len(others) > 1:
+                subs.append(frozenset([k, ck.rng.choice(others), ck.rng.choice(others)]))
+            subs = [b for i, b in enumerate(subs) if b not in subs[:i] and case.valid(b)]
+            shapes = [(2,), (3,), (2, 2), (2, 3), (3, 2)] if ck.thorough() else [(2,), ck.rng.choice([(3,), (2, 2), (2, 3)])]
+            for B in subs:
+                for ss in shapes:
+                    if budget is not None and time.time() > budget:
+                        return
+                    verdict, detail = orc.run(B, ss, singular_ok=True)
+                    ck.case(key=("special", name, k, label, tuple(sorted(B)), ss),
+                            nontrivial=verdict not in ("slice-raises", "all-singular"),
+                            sample={"case": name, "special": f"{k}={label} in sample {SPECIAL_INDEX}", "batched": sorted(B),
+                                    "sample_shape": list(ss), "verdict": verdict} if verdict == "ok" and len(B) > 1 else None,
+                            bucket=f"special/{verdict}/{label}")
+                    pc = ck.extra.setdefault("per_class_special", {}).setdefault(name, {})
+                    pc[verdict] = pc.get(verdict, 0) + 1
+                    if verdict in ("value", "shape") and blame_component(case, orc, B, ss)[0] is not None:
+                        continue  # a component reporting a wrong sample shape: found (and attributed) by explore_case
+                    if verdict in ("value", "shape"):
+                        key = (sig_base(case), frozenset(B), f"special:{k}={label}")
+                        size = (len(ss), math.prod(ss))
+                        prev = found.get(key)
+                        if prev is None or size < prev[0]:
+                            found[key] = (size, name, replay_dict(
+                                name, orc, B, ss, verdict, detail,
+                                {"special": {"parameter": k, "value": label, "pool_index": SPECIAL_INDEX},
+                                 "singular_ok": True}), ss)
+
+
 def replay_dict(case_name, orc, B, ss, verdict, detail, extra=None):
     B = frozenset(B)
     idx = sorted({pool_index(ss, s) for s in sample_indices(ss)})
@@ -283,6 +344,19 @@ def replay_dict(case_name, orc, B, ss, verdict, detail, extra=None):
 
 
 # ----------------------------------------------------------------------------- run
+def blame_component(case, orc, B, ss):
+    """JointDistributionModel decides how to reduce a component from the sample shape the component reports: a
+    component that carries the sample rows but reports another shape is the culprit of a wrong joint value.
+    -> ((component name, reported shape) | None, batched names of that component | B)"""
+    if getattr(case, "components", None) is None:
+        return None, B
+    for pos, (cname, claimed) in enumerate(orc.claimed_shapes(orc.vals.batched(B, ss)) or []):
+        mine = frozenset(k.split(".", 1)[1] for k in B if k.startswith(f"{pos}."))
+        if mine and claimed != tuple(ss):
+            return (cname, claimed), mine
+    return None, B
+
+
 def explore_case(ck: Check, case, found, f=None, name=None, budget=None):
     name = name or case.name
     orc = Oracle(case, ck.rng.getrandbits(40), f)
@@ -315,17 +389,9 @@ def explore_case(ck: Check, case, found, f=None, name=None, budget=None):
             )
             ck.extra.setdefault("per_class", {}).setdefault(name, {}).setdefault(verdict, 0)
             ck.extra["per_class"][name][verdict] += 1
-            joint = getattr(case, "components", None) is not None
             culprit = None
-            if joint and verdict in ("value", "shape"):
-                # JointDistributionModel decides how to reduce a component from the sample shape the component
-                # reports: a component that carries the sample rows but reports another shape is the culprit
-                for pos, (cname, claimed) in enumerate(orc.claimed_shapes(orc.vals.batched(B, ss)) or []):
-                    mine = frozenset(k.split(".", 1)[1] for k in B if k.startswith(f"{pos}."))
-                    if mine and claimed != tuple(ss):
-                        culprit = (cname, claimed)
-                        B = mine
-                        break
+            if verdict in ("value", "shape"):
+                culprit, B = blame_component(case, orc, B, ss)
             if culprit is not None:
                 cname, claimed = culprit
                 cb = base_name(cname)
@@ -424,6 +490,8 @@ def run(ck: Check):
             now = time.time()
             share = 2.5 * max(phase_end - now, 0.0) / (len(group) - i)
             explore_case(ck, case, found, budget=min(phase_end, now + max(share, 0.5)))
+            if group is cases or (ck.thorough() and len(case.components) == 1):
+                explore_specials(ck, case, found, budget=min(phase_end, now + max(share, 0.5)))
     ck.extra["time_budget_exhausted"] = time.time() > t_end
     explore_objectives(ck, found)
     ck.extra["classes_covered"] = sorted({c.name for c in cases})
@@ -464,6 +532,10 @@ def report(ck, found):
         else:
             what = ("row differs from its slice" if rep["verdict"] == "value"
                     else "a number is returned that has no per-sample rows and differs from the slices")
+            if rep.get("special"):
+                sp = rep["special"]
+                what = (f"with {sp['parameter']} = {sp['value']} in sample {sp['pool_index']} only, an ordinary "
+                        f"sample's {what}")
             sig = sig_of(base, B, kind)
         ck.violation(sig, f"{name}: batched {rep['batched'] or 'nothing'} with sample shape {list(ss)}: {what}", rep)
 
@@ -514,6 +586,10 @@ def replay(path: str) -> int:
     for s in sample_indices(ss):
         vs = {k: (pool[k][pool_index(ss, s)] if k in B else b) for k, b in base.items()}
         st_s, o = call(fs, vs)
+        if obj.get("singular_ok") and (st_s != "ok" or not bool(torch.isfinite(o).all())):
+            print(f"  sample {list(s)}: singular on its own ({o if st_s != 'ok' else o.reshape(-1)[:4].tolist()}): row not compared")
+            sl[s] = None
+            continue
         if st_s != "ok":
             print("slice", s, "raises:", o)
             return 2
